@@ -12,3 +12,9 @@ pub use gob::decode_gob;
 pub use macroblock::decode_macroblock;
 pub use picture::decode_picture;
 pub use reader::H263Reader;
+
+/// Verification hooks: the VLC table types, re-exported unchanged.
+#[cfg(feature = "verif-hooks")]
+pub mod verif_hooks {
+    pub use super::vlc::{Entry, Table};
+}
